@@ -76,6 +76,7 @@ TEMPLATES = [
      '<a id="a1" transform="translate(3,3)"><circle id="c1" cx="5" cy="5" r="2" fill="blue"/></a>'
      '<switch id="sw"><g id="g1" transform="skewY(3)" opacity="0.5"><line id="l1" x1="0" y1="0" x2="5%%" y2="5%%" stroke="red" stroke-width="1"/></g></switch>'
      '<use id="u1" xlink:href="#sym" x="40" y="40" width="20" height="20"/>'
+     '<svg id="s2" x="5" y="30" width="40" height="16" viewBox="0 0 80 30"><rect id="r2" x="10%%" y="10%%" width="50%%" height="50%%"/></svg>'
      '<rect id="last" x="50%%" y="50%%" width="25%%" height="25%%" stroke="black" stroke-width="1%%"/></svg>') % NS,
 ]
 
